@@ -56,6 +56,13 @@ ASSUMPTIONS = [
     "root's top level, root-level loop variables and include/render keyword arguments; "
     "render data is never empty (keeps clear of the unrelated `global_data or {}` defect)",
     "chains are driven with default Undefined (block.super without a parent renders '')",
+    "mutually nested blocks across templates (a nests b in one template, b nests a in "
+    "another, reached again through block.super) have no finite meaning: such chains "
+    "stay in the exhaustive family (1800 of 40494, counted as "
+    "exh_invalid_recursive_nesting) but only 'stops with a LiquidError/RecursionError "
+    "within the step budget, no output' is demanded of them",
+    "a template rendered directly (depth 1) is treated as a chain of one template: its "
+    "own required blocks and duplicate block names must be rejected too",
 ]
 
 BUDGET = 150_000
